@@ -292,13 +292,20 @@ Proof.
 Qed.
 Lemma forallb_map_strip (f : obj -> bool) l : (forall v, f (strip v) = f v) -> forallb f (map strip l) = forallb f l.
 Proof. intros H. rewrite forallb_map'. apply forallb_ext'. exact H. Qed.
+Lemma coerce_locs_id l : forallb is_loc l = true -> mapM coerce_loc l = Ok l.
+Proof.
+  induction l as [|x l IH]; cbn [forallb]; intros H; [reflexivity|].
+  apply andb_prop in H. destruct H as [H1 H2]. rewrite mapM_cons, (IH H2).
+  destruct x; try discriminate. reflexivity.
+Qed.
 Lemma location_tuple_strip locs :
   locs <> [] -> forallb is_loc locs = true -> same_strands locs = true -> sorted_by (loc_order locs) locs = true ->
   location_tuple (map strip locs) = Ok (map strip locs).
 Proof.
   intros Hne Hl Hs Ho. unfold location_tuple.
   destruct (map strip locs) eqn:E; [destruct locs; [congruence|discriminate]|]. rewrite <- E.
-  rewrite (forallb_map_strip is_loc _ is_loc_strip), Hl, same_strands_strip, Hs. cbn [negb].
+  rewrite coerce_locs_id by (rewrite (forallb_map_strip is_loc _ is_loc_strip); exact Hl).
+  rewrite bind_ok, same_strands_strip, Hs. cbn [negb].
   rewrite sort_sorted; [reflexivity|].
   rewrite loc_order_strip, sorted_map_strip; [exact Ho|]. intros x y. apply loc_order_compat.
 Qed.
@@ -838,3 +845,204 @@ Lemma seq_id_any_value d m t :
   conv_kv m = m -> has_key K_id m = true -> (str_eqb t N_nt || str_eqb t N_aa) = true ->
   construct_seq [(K_data, OStr d); (K_meta, OAttr CMeta m); (K_type, OStr t)] = Ok (OSeq (upper d) m t).
 Proof. intros H1 H2 H3. rewrite <- (hook_seq d m t H1 H2 H3). reflexivity. Qed.
+
+(* ---- the sniffer accepts what the writer writes --------------------------------------------------------------------------- *)
+Lemma write_sjson_head data m : exists kv, write_sjson (OBasket data m) = JObj ((K_fmtcomment, JStr SJSON_COMMENT) :: kv).
+Proof. unfold write_sjson. rewrite enc_basket. eexists. reflexivity. Qed.
+Lemma is_sjson_head kv rest : is_sjson (text_head (JObj ((K_fmtcomment, JStr SJSON_COMMENT) :: kv)) ++ rest) = true.
+Proof.
+  assert (E : text_head (JObj ((K_fmtcomment, JStr SJSON_COMMENT) :: kv)) = text_head (JObj [(K_fmtcomment, JStr SJSON_COMMENT)]))
+    by reflexivity.
+  rewrite E. clear E. unfold is_sjson. rewrite firstn_app.
+  replace (SJSON_SNIFF_READ - length (text_head (JObj [(K_fmtcomment, JStr SJSON_COMMENT)]))) with 0 by (vm_compute; reflexivity).
+  cbn [firstn]. rewrite app_nil_r. vm_compute. reflexivity.
+Qed.
+Theorem written_text_is_detected : forall b rest, is_basket b = true ->
+  (exists kv, write_sjson b = JObj ((K_fmtcomment, JStr SJSON_COMMENT) :: kv)) /\
+  text_head (write_sjson b) <> [] /\ is_sjson (text_head (write_sjson b) ++ rest) = true.
+Proof.
+  intros b rest H. destruct b; try discriminate. destruct (write_sjson_head data meta) as [kv E].
+  split; [exists kv; exact E|]. rewrite E. split; [|apply is_sjson_head].
+  assert (E2 : text_head (JObj ((K_fmtcomment, JStr SJSON_COMMENT) :: kv)) = text_head (JObj [(K_fmtcomment, JStr SJSON_COMMENT)]))
+    by reflexivity.
+  rewrite E2. vm_compute. discriminate.
+Qed.
+
+(* ---- the observables named by the property, explicitly ---------------------------------------------------------------------- *)
+Lemma lookup_strip_kv k m : keep_final k = true -> lookup k (strip_kv m) = option_map strip (lookup k m).
+Proof.
+  intros Hk. unfold strip_kv. induction m as [|[a v] m IH]; [reflexivity|].
+  cbn [map stripp]. rewrite filter_keepo_cons. cbn [lookup]. destruct (str_eqb a k) eqn:E.
+  - apply str_eqb_eq in E. subst a. rewrite Hk. cbn [lookup]. rewrite str_eqb_refl. reflexivity.
+  - destruct (keep_final a); [cbn [lookup]; rewrite E|]; exact IH.
+Qed.
+Lemma loc_view_strip x : loc_view (strip x) = loc_view x.
+Proof. destruct x; reflexivity. Qed.
+Lemma feat_view_strip x : feat_view (strip x) = feat_view x.
+Proof.
+  destruct x; try reflexivity. rewrite strip_feat. cbn [feat_view]. rewrite map_map. apply map_ext. apply loc_view_strip.
+Qed.
+Lemma seq_view_strip x : seq_view (strip x) = seq_view x.
+Proof.
+  destruct x; try reflexivity. rewrite strip_seq. cbn [seq_view]. fold (strip_kv meta).
+  rewrite lookup_strip_kv by reflexivity. destruct (lookup K_fts meta) as [v|]; [|reflexivity]. cbn [option_map].
+  destruct v; try reflexivity. rewrite strip_fts. rewrite map_map. f_equal. apply map_ext. apply feat_view_strip.
+Qed.
+Lemma seq_view_add_fmt x : seq_view (add_fmt x) = seq_view x.
+Proof.
+  destruct x; try reflexivity. cbn [add_fmt seq_view]. f_equal. f_equal.
+  assert (L : lookup K_fts (set_key K_fmt V_sjson meta) = lookup K_fts meta); [|rewrite L; reflexivity].
+  unfold set_key. destruct (has_key K_fmt meta).
+  - induction meta as [|[a v] m IH]; [reflexivity|]. cbn [map fst lookup]. destruct (str_eqb a K_fmt) eqn:E.
+    + apply str_eqb_eq in E. subst a. cbn [lookup]. exact IH.
+    + cbn [lookup]. destruct (str_eqb a K_fts); [reflexivity|exact IH].
+  - induction meta as [|[a v] m IH]; [reflexivity|]. cbn [app lookup]. destruct (str_eqb a K_fts); [reflexivity|exact IH].
+Qed.
+Theorem view_preserved : forall b, wf_C14 b = true ->
+  exists b', write_read b = Ok b' /\ basket_view b' = basket_view b.
+Proof.
+  intros b H. destruct b; try discriminate. eexists. split; [apply write_read_exact; exact H|].
+  cbn [basket_view]. rewrite !map_map. apply map_ext. intros x. rewrite seq_view_add_fmt. apply seq_view_strip.
+Qed.
+
+(* ---- the hook on arbitrary JSON trees ------------------------------------------------------------------------------------- *)
+Section json_induction.
+  Variable P : json -> Prop.
+  Hypothesis JN : P JNull.
+  Hypothesis JB : forall b, P (JBool b).
+  Hypothesis JI : forall z, P (JInt z).
+  Hypothesis JF : forall l, P (JFloat l).
+  Hypothesis JS : forall s, P (JStr s).
+  Hypothesis JA : forall l, Forall P l -> P (JArr l).
+  Hypothesis JO : forall kv, Forall (fun p => P (snd p)) kv -> P (JObj kv).
+  Fixpoint json_ind' (j : json) : P j :=
+    match j with
+    | JNull => JN | JBool b => JB b | JInt z => JI z | JFloat l => JF l | JStr s => JS s
+    | JArr l => JA l ((fix fl (l : list json) : Forall P l :=
+                        match l with [] => Forall_nil _ | x :: r => Forall_cons x (json_ind' x) (fl r) end) l)
+    | JObj kv => JO kv ((fix fkv (kv : list (str * json)) : Forall (fun p => P (snd p)) kv :=
+                           match kv with [] => Forall_nil _ | (k, v) :: r => Forall_cons (k, v) (json_ind' v) (fkv r) end) kv)
+    end.
+End json_induction.
+
+(* JSON that carries no `_cls` key anywhere is returned as the plain data it denotes: the hook never raises on it *)
+Definition plainp (p : str * json) : str * obj := match p with (k, v) => (k, plain_of v) end.
+Theorem dec_plain : forall j, no_cls j = true -> dec j = Ok (plain_of j).
+Proof.
+  apply (json_ind' (fun j => no_cls j = true -> dec j = Ok (plain_of j))); try (intros; reflexivity).
+  - intros l IH H. cbn [no_cls] in H. rewrite dec_arr.
+    assert (E : mapM dec l = Ok (map plain_of l)).
+    { induction IH as [|x l Hx Hl IHl]; [reflexivity|]. cbn [forallb] in H. apply andb_prop in H. destruct H as [H1 H2].
+      rewrite mapM_cons, (Hx H1), bind_ok, (IHl H2). reflexivity. }
+    rewrite E. reflexivity.
+  - intros kv IH H. cbn [no_cls] in H. apply andb_prop in H. destruct H as [Hc H]. rewrite dec_obj.
+    assert (E : mapMkv dec kv = Ok (map plainp kv)).
+    { clear Hc. induction IH as [|[k v] kv Hx Hl IHl]; [reflexivity|]. cbn [forallb snd] in H. apply andb_prop in H.
+      destruct H as [H1 H2]. cbn [snd] in Hx. rewrite mapMkv_cons, (Hx H1), bind_ok, (IHl H2). reflexivity. }
+    rewrite E, bind_ok. unfold hook.
+    replace (lookup K_cls (map plainp kv)) with (@None obj); [reflexivity|].
+    symmetry. destruct (has_key K_cls kv) eqn:E2; [discriminate|]. clear - E2. unfold has_key in E2.
+    induction kv as [|[a v] kv IH]; [reflexivity|]. cbn [existsb fst] in E2. apply orb_false_iff in E2. destruct E2 as [E1 E2].
+    cbn [map plainp lookup]. rewrite E1. auto.
+Qed.
+
+(* whatever the JSON tree, reading either succeeds or raises one of four exception classes *)
+Definition DOC {A} (r : res A) : Prop := forall e, r = Err e -> documented_error e = true.
+Lemma doc_ok {A} (a : A) : DOC (Ok a).
+Proof. intros e H. discriminate. Qed.
+Lemma doc_err {A} e : documented_error e = true -> DOC (@Err A e).
+Proof. intros H e' E. inversion E; subst. exact H. Qed.
+Lemma doc_bind {A B} (r : res A) (f : A -> res B) : DOC r -> (forall a, DOC (f a)) -> DOC (bind r f).
+Proof. intros Hr Hf e H. destruct r as [a|e0]; cbn [bind] in H; [exact (Hf a e H)|]. inversion H; subst. apply (Hr e). reflexivity. Qed.
+Lemma doc_if {A} (c : bool) (x y : res A) : DOC x -> DOC y -> DOC (if c then x else y).
+Proof. destruct c; auto. Qed.
+Ltac doc := repeat first [apply doc_ok | apply doc_err; reflexivity | apply doc_if | apply doc_bind; [|intros ?]].
+Lemma as_meta_doc o : DOC (as_meta o).
+Proof. destruct o; cbn [as_meta]; doc. destruct l; doc. Qed.
+Local Opaque as_meta.
+Lemma opt_meta_doc o : DOC (opt_meta o).
+Proof. destruct o as [o|]; [|cbn; doc]. destruct o; try apply as_meta_doc; cbn; doc. Qed.
+Local Opaque opt_meta.
+Lemma construct_loc_doc d : DOC (construct_loc d).
+Proof.
+  unfold construct_loc. doc.
+  destruct (lookup K_start d) as [[]|]; doc; destruct (lookup K_stop d) as [[]|]; doc.
+  - destruct (lookup K_strand d) as [[]|]; doc.
+  - destruct (lookup K_defect d) as [[]|]; doc.
+  - destruct (lookup K_meta d) as [[]|]; doc; apply as_meta_doc.
+Qed.
+Local Opaque construct_loc.
+Lemma loc_of_list_doc l : DOC (loc_of_list l).
+Proof.
+  unfold loc_of_list. destruct l as [|a [|b rest]]; doc.
+  destruct rest as [|s [|dd [|m [|x r]]]]; doc; apply construct_loc_doc.
+Qed.
+Local Opaque loc_of_list.
+Lemma coerce_loc_doc o : DOC (coerce_loc o).
+Proof. destruct o; cbn [coerce_loc]; doc. destruct (loc_of_list l); doc. Qed.
+Local Opaque coerce_loc.
+Lemma mapM_doc {A B} (f : A -> res B) l : (forall x, DOC (f x)) -> DOC (mapM f l).
+Proof. intros H. induction l as [|x l IH]; [apply doc_ok|]. rewrite mapM_cons. doc; [apply H|exact IH]. Qed.
+Lemma location_tuple_doc l : DOC (location_tuple l).
+Proof.
+  unfold location_tuple. destruct l as [|x r]; [doc|].
+  apply doc_bind; [apply mapM_doc; apply coerce_loc_doc|intros; doc].
+Qed.
+Local Opaque location_tuple.
+Lemma construct_feat_doc d : DOC (construct_feat d).
+Proof.
+  unfold construct_feat. doc; [apply opt_meta_doc|].
+  destruct (non_none (lookup K_start d)); destruct (non_none (lookup K_stop d));
+    try (destruct (non_none (lookup K_locs d)); doc; apply construct_loc_doc).
+  destruct (lookup K_locs d) as [[]|]; doc. apply location_tuple_doc.
+Qed.
+Local Opaque construct_feat.
+Lemma construct_fts_doc d : DOC (construct_fts d).
+Proof. unfold construct_fts. doc. destruct (lookup K_data d) as [[]|]; doc. Qed.
+Local Opaque construct_fts.
+Lemma construct_seq_doc d : DOC (construct_seq d).
+Proof.
+  unfold construct_seq. doc. destruct (lookup K_data d) as [[]|]; doc.
+  - apply opt_meta_doc.
+  - destruct (lookup K_type d) as [[]|]; doc.
+  - apply as_meta_doc.
+  - destruct (lookup K_type d) as [[]|]; doc.
+Qed.
+Local Opaque construct_seq.
+Lemma construct_basket_doc d : DOC (construct_basket d).
+Proof.
+  unfold construct_basket. doc. destruct (lookup K_data d) as [[]|]; doc; try apply opt_meta_doc; apply as_meta_doc.
+Qed.
+Local Opaque construct_basket.
+Lemma construct_doc n d : DOC (construct n d).
+Proof.
+  unfold construct, mk_attr. doc; first [apply construct_loc_doc | apply construct_feat_doc | apply construct_fts_doc
+                                       | apply construct_seq_doc | apply construct_basket_doc].
+Qed.
+Local Opaque construct.
+Lemma hook_doc d : DOC (hook d).
+Proof.
+  unfold hook. destruct (lookup K_cls d) as [c|]; doc. destruct c; doc; apply construct_doc.
+Qed.
+Local Opaque hook.
+Lemma mapMkv_doc {A B} (f : A -> res B) l : Forall (fun p => DOC (f (snd p))) l -> DOC (mapMkv f l).
+Proof.
+  induction 1 as [|[k x] l Hx Hl IH]; [apply doc_ok|]. rewrite mapMkv_cons. doc; [exact Hx|exact IH].
+Qed.
+Lemma dec_doc_unused : True. Proof. exact I. Qed.
+Theorem dec_errors_documented : forall j e, dec j = Err e -> documented_error e = true.
+Proof.
+  apply (json_ind' (fun j => DOC (dec j))); try (intros; apply doc_ok).
+  - intros l IH. rewrite dec_arr. doc. induction IH as [|x l Hx Hl IHl]; [apply doc_ok|]. rewrite mapM_cons. doc; assumption.
+  - intros kv IH. rewrite dec_obj. doc; [apply mapMkv_doc; exact IH|apply hook_doc].
+Qed.
+(* sugar.read on top: the only further exception class is AttributeError (an element of the basket without .meta) *)
+Theorem read_errors_documented : forall viaread j e, read_any viaread j = Err e ->
+  documented_error e = true \/ e = E_Attribute.
+Proof.
+  intros viaread j e H. unfold read_any in H. destruct viaread; [|left; eapply dec_errors_documented; exact H].
+  destruct (dec _) as [o|e0] eqn:E; cbn [bind] in H.
+  - unfold read_glue in H. destruct o; try (inversion H; subst; left; reflexivity).
+    destruct (forallb is_seq data); inversion H. right. reflexivity.
+  - inversion H; subst. left. eapply dec_errors_documented. exact E.
+Qed.
